@@ -71,8 +71,8 @@ func theWorld() *entity.World {
 type collect struct{ ids []entity.EntityID }
 
 func (c *collect) Validate(id entity.EntityID, dist float32) bool { return true }
-func (c *collect) AddCandidate(id entity.EntityID, dist float32) { c.ids = append(c.ids, id) }
-func (c *collect) MakeResults() []entity.EntityID                { return c.ids }
+func (c *collect) AddCandidate(id entity.EntityID, dist float32)  { c.ids = append(c.ids, id) }
+func (c *collect) MakeResults() []entity.EntityID                 { return c.ids }
 
 func newSearcher(mode int64) define.ISearcher {
 	if mode >= 1 && mode <= worldN {
@@ -130,10 +130,31 @@ func freshDefault() *spaces {
 	return &spaces{zone: factory.CreateZoneSpace(), simple: factory.CreateNormalSpace(), present: map[int64]bool{}}
 }
 
-// Exec runs one op list against fresh real objects and returns the observations.
+// safely runs f and turns a panic of the code under test into a value.
+func safely(f func()) (msg string, panicked bool) {
+	defer func() {
+		if r := recover(); r != nil {
+			msg, panicked = fmt.Sprint(r), true
+		}
+	}()
+	f()
+	return
+}
+
+// Exec runs one op list against fresh real objects and returns the observations.  Every call
+// into the space packages is panic-safe: a panic becomes the observation BPanic of that
+// operation (which the model never produces), so it is reported with the op sequence.
 func Exec(ops []hx.T) (obs []any, nontrivial bool, tags map[string]bool) {
 	tags = map[string]bool{}
-	sp := freshDefault()
+	var sp *spaces
+	if msg, bad := safely(func() { theWorld(); sp = freshDefault() }); bad {
+		// the constructors themselves panicked: every operation observes it
+		fmt.Printf("c20: panic while constructing the spaces: %s\n", msg)
+		for range ops {
+			obs = append(obs, "BPanic")
+		}
+		return
+	}
 	for _, o := range ops {
 		func() {
 			defer func() {
@@ -210,6 +231,15 @@ func Exec(ops []hx.T) (obs []any, nontrivial bool, tags map[string]bool) {
 // in the float domain (the Coq theorems are about exact arithmetic); it is reported as one
 // observation BFloat ok.  Returns the number of inner operations executed before a failure.
 func floatCheck(seed int64, n int, verbose bool) (ok bool, failedAt int) {
+	step := 0
+	defer func() { // a panic of the code under test is a failed run, at the step that raised it
+		if rec := recover(); rec != nil {
+			if verbose {
+				fmt.Printf("c20 float seed=%d step=%d: panic: %v\n", seed, step, rec)
+			}
+			ok, failedAt = false, step
+		}
+	}()
 	r := rand.New(rand.NewSource(seed))
 	z := space.NewZoneSpace()
 	type gridT struct{ bx, bz, ex, ez, sz float32 }
@@ -272,6 +302,7 @@ func floatCheck(seed int64, n int, verbose bool) (ok bool, failedAt int) {
 		return false, i
 	}
 	for i := 0; i < n; i++ {
+		step = i
 		id := int64(1 + r.Intn(12))
 		switch c := r.Intn(10); {
 		case c < 3:
@@ -360,12 +391,19 @@ var defaultGrid = gridI{-240, -240, 240, 240, 40}
 
 type shadowEnt struct{ x, y, z int64 }
 
-func gen(cfg *hx.Config, maxLen int) ([]hx.T, []string) {
+// hot: crowding mode - most entities are placed inside one zone and its index-neighbours
+// (the zones stored before and after it), with ids 1..40, so that zones hold many entities
+// while their neighbours are occupied.
+func gen(cfg *hx.Config, maxLen int, hot bool) ([]hx.T, []string) {
 	r := cfg.Rng
 	tags := map[string]bool{}
+	if hot {
+		tags["crowded"] = true
+	}
 	g := defaultGrid
 	var ops []hx.T
 	sh := map[int64]shadowEnt{}
+	var hotX, hotZ int64 = -1, -1
 	newGrid := func() {
 		sizes := []int64{8, 40, 12, 3, 100, 1, 64}
 		g = gridI{sz: hx.Pick(r, sizes)}
@@ -381,6 +419,7 @@ func gen(cfg *hx.Config, maxLen int) ([]hx.T, []string) {
 		ops = append(ops, hx.C("OInit", g.bx, g.bz, g.ex, g.ez, g.sz))
 		sh = map[int64]shadowEnt{}
 		tags["custom-grid"] = true
+		hotX, hotZ = -1, -1
 	}
 	if r.Intn(3) == 0 {
 		newGrid()
@@ -406,15 +445,49 @@ func gen(cfg *hx.Config, maxLen int) ([]hx.T, []string) {
 				return clamp(b - 1 - int64(r.Intn(200)))
 			}
 			return clamp(e + 1 + int64(r.Intn(200)))
-		case 3:
-			return hx.Pick(r, []int64{-512, 512, b, e})
+		case 3: // the clamp boundaries: begin, end, and the far edge of the extra last zone, +- one unit
+			far := b + ((e-b)/g.sz+1)*g.sz
+			tags["clamp-boundary"] = true
+			return clamp(hx.Pick(r, []int64{-512, 512, b, e, far, far, b, e}) + hx.Pick(r, []int64{0, 0, 0, -1, 1}))
 		}
 		return clamp(b + r.Int63n(e-b+1))
 	}
+	// the hot zone (crowding mode): first/last column and row are favoured
+	pickHot := func() {
+		w, h := (g.ex-g.bx)/g.sz+1, (g.ez-g.bz)/g.sz+1
+		edge := func(n int64) int64 {
+			switch r.Intn(4) {
+			case 0:
+				return 0
+			case 1:
+				return n - 1
+			}
+			return r.Int63n(n)
+		}
+		hotX, hotZ = edge(w), edge(h)
+	}
 	rpos := func() (int64, int64, int64) {
+		if hot && r.Intn(100) < 88 {
+			if hotX < 0 {
+				pickHot()
+			}
+			w, h := (g.ex-g.bx)/g.sz+1, (g.ez-g.bz)/g.sz+1
+			idx := hotZ*w + hotX
+			switch c := r.Intn(10); {
+			case c < 2 && idx+1 < w*h: // the zone stored after it
+				idx++
+			case c == 2 && idx > 0: // the zone stored before it
+				idx--
+			}
+			zx, zz := idx%w, idx/w
+			return clamp(g.bx + zx*g.sz + r.Int63n(g.sz)), int64(r.Intn(9) - 4), clamp(g.bz + zz*g.sz + r.Int63n(g.sz))
+		}
 		return coord(g.bx, g.ex), int64(r.Intn(81) - 40), coord(g.bz, g.ez)
 	}
 	pickID := func() int64 {
+		if hot {
+			return int64(1 + r.Intn(40))
+		}
 		switch r.Intn(12) {
 		case 0:
 			return int64(r.Intn(70) - 5)
@@ -519,6 +592,21 @@ func gen(cfg *hx.Config, maxLen int) ([]hx.T, []string) {
 			case 6:
 				rad = int64(500 + r.Intn(2000))
 				tags["big-radius"] = true
+			case 7, 8: // pos+radius or pos-radius exactly on a zone border / clamp boundary (+- one unit)
+				b, e, c := g.bx, g.ex, x
+				if r.Intn(2) == 0 {
+					b, e, c = g.bz, g.ez, z
+				}
+				t := b + r.Int63n((e-b)/g.sz+2)*g.sz
+				if r.Intn(4) == 0 {
+					t = e
+				}
+				rad = t - c
+				if rad < 0 {
+					rad = -rad
+				}
+				rad += hx.Pick(r, []int64{0, 0, -1, 1})
+				tags["box-on-border"] = true
 			default:
 				rad = int64(r.Intn(120))
 				if id, ok := presentID(); ok && r.Intn(2) == 0 { // near an entity
@@ -574,6 +662,163 @@ func enumerate(L int, emit func([]hx.T)) {
 	rec(0)
 }
 
+// boundarySweep: for several grids, an entity and the edges of query bounding boxes are put
+// exactly on every zone border and on the clamp boundaries - begin, end, and begin + w*size (the
+// far edge of the extra last zone, where (n-begin)/size equals the zone count) - and one unit
+// (1/8) to either side, on both axes.
+func boundarySweep(emit func([]hx.T)) {
+	grids := []gridI{defaultGrid, {0, 0, 80, 80, 8}, {-17, -9, 50, 31, 12}, {-300, -300, -300, -300, 1}, {-64, 0, 63, 40, 16}}
+	for gi, g := range grids {
+		vals := func(b, e int64) []int64 {
+			var v []int64
+			w := (e-b)/g.sz + 1
+			for k := int64(0); k <= w; k++ {
+				for d := int64(-1); d <= 1; d++ {
+					v = append(v, b+k*g.sz+d)
+				}
+			}
+			return append(v, e-1, e, e+1)
+		}
+		vx, vz := vals(g.bx, g.ex), vals(g.bz, g.ez)
+		n := len(vx)
+		if len(vz) > n {
+			n = len(vz)
+		}
+		xm, zm := (g.bx+g.ex)/2+1, (g.bz+g.ez)/2+1
+		for j := 0; j < n; j++ {
+			x, z := vx[j%len(vx)], vz[j%len(vz)]
+			var ops []hx.T
+			if gi > 0 {
+				ops = append(ops, hx.C("OInit", g.bx, g.bz, g.ex, g.ez, g.sz))
+			}
+			ops = append(ops,
+				hx.C("OAdd", 1, x, 0, zm), hx.C("OAdd", 2, xm, 0, z), hx.C("OAdd", 3, x, 0, z), hx.C("OAdd", 4, xm, 0, zm),
+				hx.C("OSearch", x, 0, zm, 0, 0, 0), hx.C("OSearch", xm, 0, z, 0, 0, 0), hx.C("OSearch", x, 0, z, 0, 0, 0),
+				// bounding box edges exactly on the boundary, from either side, on either axis
+				hx.C("OSearch", x-16, 0, zm, 16, 0, 0), hx.C("OSearch", x+16, 0, zm, 16, 0, 0),
+				hx.C("OSearch", xm, 0, z-16, 16, 0, 0), hx.C("OSearch", xm, 0, z+16, 16, 0, 0),
+				hx.C("OSearch", x-320, 0, z-320, 320, 0, 0), hx.C("OSearch", x+320, 0, z+320, 320, 0, 0),
+				hx.C("OSearch", 0, 0, 0, 1, 127, 0),
+				hx.C("OMove", 1, x+1, 0, zm), hx.C("OMove", 3, x-1, 0, z-1), hx.C("OMove", 4, x, 0, z),
+				hx.C("OSearch", x, 0, z, 2, 0, 0), hx.C("OSearch", x+1, 0, zm, 0, 0, 0),
+				hx.C("ORemove", 3), hx.C("OSearch", x, 0, z, 2, 0, 0), hx.C("OSearch", 0, 0, 0, 1, 127, 0))
+			emit(ops)
+		}
+	}
+}
+
+// crowdCases: n entities inside ONE zone while the zones stored immediately before and after it
+// (index -1 / +1: the left/right neighbour, or the end/start of the adjacent row) are occupied
+// before or after the crowding; queries cover the crowded zone, the neighbour, both, everything;
+// then moves between the two zones and removals in both orders.
+func crowdCases(emit func([]hx.T)) {
+	type zsel struct {
+		g      gridI
+		zx, zz int64
+	}
+	small := gridI{0, 0, 80, 80, 8}
+	zones := []zsel{{defaultGrid, 0, 0}, {defaultGrid, 12, 0}, {defaultGrid, 5, 6}, {defaultGrid, 0, 12},
+		{defaultGrid, 11, 12}, {defaultGrid, 12, 12}, {small, 3, 3}, {small, 10, 4}}
+	for _, zs := range zones {
+		g := zs.g
+		w, h := (g.ex-g.bx)/g.sz+1, (g.ez-g.bz)/g.sz+1
+		idx := zs.zz*w + zs.zx
+		// k-th position inside zone number i (distinct for k < 40)
+		at := func(i, k int64) (int64, int64) {
+			cols := int64(6)
+			step := (g.sz - 2) / cols
+			if step < 1 {
+				step = 1
+			}
+			return g.bx + (i%w)*g.sz + 1 + (k%cols)*step, g.bz + (i/w)*g.sz + 1 + (k/cols)*step
+		}
+		centre := func(i int64) (int64, int64) { return g.bx + (i%w)*g.sz + g.sz/2, g.bz + (i/w)*g.sz + g.sz/2 }
+		for _, n := range []int64{1, 8, 9, 10, 17, 40} {
+			if g.sz < 40 && n != 9 && n != 17 {
+				continue
+			}
+			for order := 0; order < 2; order++ {
+				var ops []hx.T
+				if g != defaultGrid {
+					ops = append(ops, hx.C("OInit", g.bx, g.bz, g.ex, g.ez, g.sz))
+				}
+				search := func(i int64) {
+					cx, cz := centre(i)
+					ops = append(ops, hx.C("OSearch", cx, 0, cz, g.sz, 0, 0))
+				}
+				all := func() { ops = append(ops, hx.C("OSearch", 0, 0, 0, 1, 127, 0)) }
+				neighbours := func() {
+					if idx > 0 {
+						x, z := at(idx-1, 0)
+						ops = append(ops, hx.C("OAdd", 101, x, 0, z))
+					}
+					if idx+1 < w*h {
+						x, z := at(idx+1, 0)
+						ops = append(ops, hx.C("OAdd", 102, x, 0, z))
+						x, z = at(idx+1, 1)
+						ops = append(ops, hx.C("OAdd", 103, x, 0, z))
+					}
+				}
+				crowd := func() {
+					for k := int64(0); k < n; k++ {
+						x, z := at(idx, k)
+						ops = append(ops, hx.C("OAdd", k+1, x, 1, z))
+						if k == 7 || k == 8 {
+							search(idx)
+						}
+					}
+				}
+				if order == 0 {
+					neighbours()
+					crowd()
+				} else {
+					crowd()
+					neighbours()
+				}
+				search(idx)
+				if idx+1 < w*h {
+					search(idx + 1)
+				}
+				if idx > 0 {
+					search(idx - 1)
+				}
+				all()
+				// the neighbours move away / are removed
+				fx, fz := at((idx+w*h/2)%(w*h), 3)
+				ops = append(ops, hx.C("OMove", 102, fx, 0, fz), hx.C("ORemove", 103), hx.C("OMove", 101, fx, 0, fz))
+				search(idx)
+				all()
+				if idx+1 < w*h { // crowd members visit the next zone and come back
+					for k := int64(0); k < n && k < 3; k++ {
+						x, z := at(idx+1, 5+k)
+						ops = append(ops, hx.C("OMove", n-k, x, 0, z))
+					}
+					search(idx + 1)
+					all()
+					for k := int64(0); k < n && k < 3; k++ {
+						x, z := at(idx, 30+k)
+						ops = append(ops, hx.C("OMove", n-k, x, 0, z))
+					}
+					all()
+				}
+				// removals: first half ascending, then the rest descending, a re-add in between
+				for k := int64(1); k <= n/2; k++ {
+					ops = append(ops, hx.C("ORemove", k))
+				}
+				search(idx)
+				x0, z0 := at(idx, 0)
+				ops = append(ops, hx.C("OAdd", 1, x0, 0, z0))
+				all()
+				for k := n; k > n/2; k-- {
+					ops = append(ops, hx.C("ORemove", k))
+				}
+				all()
+				emit(ops)
+			}
+		}
+	}
+}
+
 func Run(cfg *hx.Config) error {
 	emit := func(kind string, ops []hx.T, tags []string) {
 		obs, nt, xt := Exec(ops)
@@ -614,13 +859,23 @@ func Run(cfg *hx.Config) error {
 	for L := 0; L <= depth; L++ {
 		enumerate(L, func(ops []hx.T) { emit(fmt.Sprintf("exhaustive-%d", L), ops, nil) })
 	}
+	boundarySweep(func(ops []hx.T) { emit("boundary-sweep", ops, []string{"border", "clamp-boundary", "box-on-border"}) })
+	crowdCases(func(ops []hx.T) { emit("crowd", ops, []string{"crowded"}) })
 	for i := 0; i < cfg.N; i++ {
 		maxLen := 14
 		if i%4 == 3 {
 			maxLen = 70
 		}
-		ops, tags := gen(cfg, maxLen)
-		emit("random", ops, tags)
+		hot := i%5 == 2
+		if hot {
+			maxLen = 40 + 30*(i%4)
+		}
+		ops, tags := gen(cfg, maxLen, hot)
+		kind := "random"
+		if hot {
+			kind = "random-crowded"
+		}
+		emit(kind, ops, tags)
 	}
 	// random-float search support: one observation per inner run; a failing run is reduced
 	// to its shortest failing prefix before it is emitted
